@@ -227,6 +227,38 @@ def d2_text(ctx):
     ctx.floor('line sources in sfcf.py', nsrc, 3)
 
 
+def d4_extent_and_readinto(ctx):
+    """(a) sfcf: the temporal extent of a correlator block is fixed by the empty line that terminates it; a file without that line
+    is cut, no fallback may compute the extent from what is left.  (b) binary readers: a buffer filled by readinto() keeps the bytes
+    of the previous record when the read is short - the number of bytes read has to be compared with the record size."""
+    rule = 'C18-D2'
+    m = ctx.repo.mod('input.sfcf')
+    f = m.func('_find_correlator')
+    em = [s_ for s_ in statements(f) if isinstance(s_, ast.Assign) and unparse(s_.targets[0]) == 'end_match']
+    ts = [s_ for s_ in statements(f) if isinstance(s_, ast.Assign) and unparse(s_.targets[0]) == 'T' and not isinstance(s_.value, ast.Constant)]
+    n = 0
+    for s_ in ts:
+        gs = guards_of(m, s_, stop=f)
+        neg_end = [unparse(t) for t, pol in gs if 'end_match' in unparse(t) and ((not pol and unparse(t) in ('end_match', 'end_match is not None')) or (pol and unparse(t) in ('not end_match', 'end_match is None')))]
+        if em and any(s_.lineno > e_.lineno for e_ in em) and any(pol and "version == '0.0'" in unparse(t) for t, pol in gs) is False:
+            n += 1
+            uses = 'end_match' in unparse(s_.value)
+            ctx.check(rule, 'input/sfcf.py:_find_correlator#extent[%s]' % unparse(s_.value)[:40], uses and not neg_end, 'the extent is counted up to the terminating empty line',
+                      'the extent T is computed as `%s` on the path where the terminating empty line is missing (%s): a file cut inside the block is accepted with a shortened T' % (unparse(s_.value)[:70], neg_end), m.loc(s_))
+    ctx.floor('extent computations behind the block terminator', n, 1)
+    rule1 = 'C18-D1'
+    oq = ctx.repo.mod('input.openQCD')
+    k = 0
+    for c in ast.walk(oq.tree):
+        if isinstance(c, ast.Call) and isinstance(c.func, ast.Attribute) and c.func.attr == 'readinto':
+            k += 1
+            par = oq.parents.get(c)
+            compared = isinstance(par, ast.Compare) and any(not (isinstance(x, ast.Constant) and x.value in (0, None)) for x in par.comparators)
+            ctx.check(rule1, 'input/openQCD.py:%s#readinto' % oq.enclosing_qualname(c), compared, 'the number of bytes read is compared with the record size',
+                      '`%s` is only tested for truth: a short last read leaves the rest of the reused buffer filled with the previous record and the unpacked numbers are a mix of two records' % unparse(c), oq.loc(c))
+    ctx.info['readinto_sites'] = k
+
+
 def d3_archives(ctx):
     rule = 'C18-D3'
     js = ctx.repo.mod('input.json')
@@ -266,10 +298,12 @@ def run(ctx):
     ctx.not_decided += ['behaviour of gzip / rapidjson / lxml / pandas on every possible cut (library contracts)', 'hdf5 files']
     ctx.guarded('C18-D1', 'readers@binary', d1_binary, ctx)
     ctx.guarded('C18-D2', 'sfcf@text', d2_text, ctx)
+    ctx.guarded('C18-D2', 'input@extent-and-readinto', d4_extent_and_readinto, ctx)
     ctx.guarded('C18-D3', 'archives', d3_archives, ctx)
 
 
 SELFTEST = [
+    ('extent-fallback', 'pyerrors/input/sfcf.py', "                T = content[match.start():].count('\\n', 0, end_match.start()) - 4 - b2b", "                if end_match is None:\n                    T = content[match.start():].count('\\n') - 4 - b2b\n                else:\n                    T = content[match.start():].count('\\n', 0, end_match.start()) - 4 - b2b", 'C18-D2'),
     ('lines-rewritten-before-completeness-test', 'pyerrors/input/sfcf.py', "        content = fp.readlines()", "        content = [ln.strip() + '\\n' for ln in fp.readlines()]", 'C18-D2'),
     ('benign-list-fp', 'pyerrors/input/sfcf.py', "        content = fp.readlines()", "        content = list(fp)", 'BENIGN'),
     ('fix-reverted-o', 'pyerrors/input/sfcf.py', "                if len(corr_lines) < T or not corr_lines[-1].endswith('\\n'):\n                    raise Exception(\"EOF before end of correlator data! Maybe \" + file + \" is corrupted?\")\n", "", 'C18-D2'),
